@@ -284,6 +284,12 @@ func contextRefName(contextOfCall protoreflect.Descriptor, refElement protorefle
 		refPath = refPath[1:]
 	}
 
+	if len(refPath) == 0 {
+		// the referenced element is the context itself or one of its parents
+		// (a recursive message): its own name resolves from any inner scope
+		return string(refElement.Name()), nil
+	}
+
 	return strings.Join(refPath, "."), nil
 }
 
